@@ -1,6 +1,6 @@
 (** C02 — pinned statements (no accepted QoS1/2 publish is lost), state-machine level.
     Only [Theorem .. exact ..]. *)
-From Rumqtt Require Import Client.Run4 Client.Inv4 Client.Flow4 Client.Findings4 Client.Loop Client.LoopProofs.
+From Rumqtt Require Import Client.Run4 Client.Inv4 Client.Flow4 Client.Findings4 Client.Loop Client.LoopProofs Client.State5 Client.Inv5.
 
 Theorem c02_accept_held : forall s p s' rep, Inv s -> op_ok s (Out (RPublish p)) = true -> p_qos p <> Q0 ->
   handle_outgoing_packet s (RPublish p) = Ok (s', rep) ->
@@ -43,3 +43,9 @@ Theorem c02_resume_needs_no_user_action : forall l r rest, Client.Loop.pending l
   (Client.Loop.connected l = true -> events (Client.Loop.st l) = [] -> inflight (Client.Loop.st l) < max_inflight (Client.Loop.st l) ->
    collision (Client.Loop.st l) = None -> Client.Loop.take_enabled l = true).
 Proof. exact Client.LoopProofs.pending_first. Qed.
+
+(* v5: clean() hands back everything held (publishes with their id and content, releases, the
+   parked publish).  c02_accept_held / c02_held are not ported to v5 (correspondence + monitors only). *)
+Theorem c02_clean_returns_held_v5_partial : forall s,
+  snd (Client.State5.clean5 s) = Client.Inv5.held5 s /\ Client.Inv5.held5 (fst (Client.State5.clean5 s)) = [].
+Proof. exact Client.Inv5.clean5_returns_held. Qed.
